@@ -52,6 +52,8 @@ pub struct Program {
 	pub assoc_types: HashMap<(String, String), syn::Type>,
 	pub assoc_consts: HashMap<(String, String), (syn::Type, syn::Expr)>,
 	pub consts: HashMap<String, (syn::Type, syn::Expr)>,
+	pub consts_by_file: HashMap<(String, String), (syn::Type, syn::Expr)>,
+	pub fns_by_file: HashMap<(String, String), Rc<FnDef>>,
 	pub aliases: HashMap<String, syn::Type>,
 	pub free_fns: HashMap<String, Rc<FnDef>>,
 	pub features: HashSet<String>,
@@ -418,10 +420,12 @@ impl Program {
 						generics: generics_names(&f.sig.generics),
 						origin,
 					});
+					self.fns_by_file.insert((path.to_string(), f.sig.ident.to_string()), d.clone());
 					self.free_fns.insert(f.sig.ident.to_string(), d);
 				}
 				syn::Item::Const(c) => {
 					if attr_cfg_ok(&c.attrs, &feats) {
+						self.consts_by_file.insert((path.to_string(), c.ident.to_string()), (*c.ty.clone(), *c.expr.clone()));
 						self.consts.insert(c.ident.to_string(), (*c.ty.clone(), *c.expr.clone()));
 					}
 				}
